@@ -205,7 +205,7 @@ Definition not_comment (l : str) : bool := negb (is_comment l).
     Comment lines may stand before the block's first line ([cb_pre]), anywhere
     among the paragraph's lines ([cb_body], whose non-comment lines are the
     paragraph's), and among the armour's header and signature lines (both
-    [armor_text_line] and [sig_line] admit them). *)
+    [armor_text_line] and [sig_line] accept them). *)
 Definition comment_line (l : str) : bool := is_comment l && no_linebreak l.
 
 Record cblock := mkCBlock {
